@@ -24,3 +24,23 @@ package core
 //@   loop 1 invariant[inside] pathDepth == pdepth(path, target, rangeindex + 1)
 //@   loop 1 invariant[inside] forall j in 0..rangeindex+2 :: pdepth(path, target, j) >= 0
 //@   loop 1 invariant rangeindex < ncomp(target)
+
+// The digest lookup maps keep their state to themselves.
+//@ iface byteLookupMap.insert
+//@   params self, key, value
+//@   pure
+//@ iface byteLookupMap.find
+//@   params self, key
+//@   pure
+//@ iface byteLookupMap.length
+//@   params self
+//@   pure
+
+// Entries are immutable; Count is a deterministic function of the entry
+// (the number of synchronizable entries in the sub-tree), abstracted by ecount.
+//@ immutable Entry Change
+//@ ufunc ecount(e *Entry) int
+//@ func (*Entry).Count
+//@   opaque
+//@   deterministic
+//@   ensures result == ecount(e) && ecount(e) >= 0
